@@ -45,8 +45,18 @@ class C07(Check):
         arch = [ns for ns in fixed]
         for _ in range(400 if self.tier == "quick" else 8000):
             arch.append([rand_name() for _ in range(r.choice([1, 2, 3, 4, 6]))])
-        for names in arch:
+        # the two copies of a name may differ (the streaming extractor creates files from the local headers and applies
+        # permissions from the central records): (central name, local name)
+        split = [[(b"../canary/f", b"safe.txt")], [(b"../canary", b"d/")], [(b"/abs/path", b"ok")], [(b"a/../../canary/f", b"a/x")],
+                 [(b"other", b"safe")], [(b"safe", b"../evil")], [(b"nul\0x", b"fine")]]
+        for _ in range(40 if self.tier == "quick" else 800):
+            split.append([(rand_name(), rand_name()) for _ in range(r.choice([1, 2, 3]))])
+        for names in arch + split:
             ents = []
+            locals_ = [None] * len(names)
+            if names and isinstance(names[0], tuple):
+                locals_ = [q[1] for q in names]
+                names = [q[0] for q in names]
             for i, n in enumerate(names):
                 isdir = n.endswith(b"/")
                 mode = r.choice([0o100644, 0o100600, 0o100755, 0o100000, 0o40755, 0o40700, 0o120777, 0o100777, 0o104755, 0])
@@ -54,9 +64,10 @@ class C07(Check):
                 attr = (mode << 16) | (0x10 if isdir else 0)
                 if made >> 8 == 0:
                     attr = r.choice([0x10, 0x20, 0x01, 0x11, 0])
-                ents.append(Entry(n, b"" if isdir else (b"content-%d-" % i) * r.randrange(1, 4), method=0, utf8=True, made_by=made, ext_attr=attr))
+                ents.append(Entry(n, b"" if isdir else (b"content-%d-" % i) * r.randrange(1, 4), method=0, utf8=True, made_by=made, ext_attr=attr,
+                                  local_name=locals_[i]))
             data, man = genzip.build(ents)
-            meta = dict(names=[n.hex() for n in names], ents=[dict(name=e.name.hex(), content=e.content.hex(), made=e.made_by, attr=e.ext_attr) for e in ents])
+            meta = dict(names=[n.hex() for n in names] + [q.hex() for q in locals_ if q is not None], split=any(q is not None for q in locals_), ents=[dict(name=e.name.hex(), content=e.content.hex(), made=e.made_by, attr=e.ext_attr) for e in ents])
             cases.append(("extract %s 0" % hexs(data), dict(mode=0, **meta)))
             cases.append(("extract %s 1" % hexs(data), dict(mode=1, **meta)))
         # compressed contents (oracle only)
@@ -80,9 +91,11 @@ class C07(Check):
             return "something outside the target directory was created, modified or removed: %s" % outside
         names = [bytes.fromhex(h) for h in meta["names"]]
         if any(unsafe(n) for n in names):
-            if res == "Ok":
+            if res == "Ok" and not meta.get("split"):
                 return "an entry name is unsafe but extraction reported success"
             return None
+        if meta.get("split"):
+            return None          # differing copies: confinement (above) and agreement with the model decide
         # safe and mutually consistent: no duplicates/conflicts, no '.', '..' or empty components, no NUL/backslash corner
         norm = []
         for n in names:
